@@ -185,7 +185,7 @@ func (s *stepper) Begin(b replay.Behaviour, rng *rand.Rand) error {
 			continue
 		}
 		s.calls = append(s.calls, &call{k: replay.Str(st.Args, "k"), m: replay.Str(st.Args, "m"), args: st.Args,
-			rid: fmt.Sprintf("rid-%d-%d", len(s.calls)+1, rng.Intn(1<<30)), x: rng.Int63n(1<<50) - (1 << 49)})
+			rid: fmt.Sprintf("rid-%d-%d", len(s.calls)+1, rng.Intn(1<<30)), sid: fmt.Sprintf("%s-%d", s.sid, len(s.calls)+1), x: rng.Int63n(1<<50) - (1 << 49)})
 	}
 	s.pipeline = s.transport != "pipe" && len(s.calls) > 1 && rng.Intn(2) == 0
 	if s.pipeline {
@@ -235,7 +235,9 @@ func (s *stepper) End() {
 	if s.sockdir != "" {
 		os.RemoveAll(s.sockdir)
 	}
-	svc.Take(s.sid)
+	for _, c := range s.calls {
+		svc.Take(c.sid)
+	}
 }
 
 // readLoop decodes every IPC stream the server writes.
@@ -360,6 +362,7 @@ type call struct {
 	m      string
 	args   map[string]any
 	rid    string
+	sid    string // journal key of this call (per call: a pipelining client's calls overlap)
 	x      int64
 	script svc.Script
 }
@@ -390,7 +393,7 @@ func (s *stepper) writeCall(c *call) error {
 			}
 		}
 	}
-	sc := svc.Script{SID: s.sid}
+	sc := svc.Script{SID: c.sid}
 	for _, l := range replay.List(a, "logs") {
 		sc.Logs = append(sc.Logs, strs(l.([]any)))
 	}
@@ -669,14 +672,14 @@ func (s *stepper) project(obs replay.Obs, c *call, resp [][]batchRec) {
 	if c.k == "unary" {
 		obs["rid"] = ridOK
 	}
-	obs["journal"] = svc.Take(s.sid)
+	obs["journal"] = svc.Take(c.sid)
 	if s.hook != nil {
-		ev := s.hook.Take()
+		ev := s.hook.TakeFor(c.rid)
 		// the end hook runs after the response is on the wire: wait for it briefly
 		if len(ev) == 1 && ev[0][0] == "start" {
 			deadline := time.Now().Add(1500 * time.Millisecond)
 			for time.Now().Before(deadline) {
-				more := s.hook.Take()
+				more := s.hook.TakeFor(c.rid)
 				if len(more) > 0 {
 					ev = append(ev, more...)
 					break
